@@ -188,6 +188,11 @@ func VerifHarness_C17_M3_addpart() {
 			i := vConcretize(cand.Index, 0, total-1)
 			vAssert(i != pre, "M3-duplicate-not-readded")
 			vAssert(bytes.Equal(cand.Bytes, gen[i].Bytes), "M3-accepted-genuine-bytes")
+			okProof := len(cand.Proof.Aunts) == len(gen[i].Proof.Aunts)
+			for k := 0; okProof && k < len(cand.Proof.Aunts); k++ {
+				okProof = bytes.Equal(cand.Proof.Aunts[k], gen[i].Proof.Aunts[k])
+			}
+			vAssert(okProof, "M3-accepted-part-carries-the-genuine-proof")
 			vAssert(ps.count == c0+1 && ps.parts[i] == cand && ps.partsBitArray.GetIndex(i), "M3-accepted-recorded")
 		}
 	} else {
